@@ -181,3 +181,24 @@ def drive(ctx, name: str, strategy, evaluate: Callable[[Any], Outcome], max_exam
             break
         remaining = 0
     return stats
+
+
+def enumerate_cases(ctx, name: str, iterable, evaluate: Callable[[Any], Outcome], stats: Optional[Stats] = None,
+                    max_violations: int = 5) -> Stats:
+    """Exhaustive / listed cases (no Hypothesis): first case per unknown signature is kept as the replay."""
+    stats = stats or Stats()
+    excluded = set(ctx.known_signatures)
+    for case in iterable:
+        out = evaluate(case)
+        stats.record(case, out)
+        for d in out.discrepancies:
+            if d.signature in excluded:
+                stats.known_hits[d.signature] = stats.known_hits.get(d.signature, 0) + 1
+            else:
+                excluded.add(d.signature)
+                stats.violations.append({"check": name, "signature": d.signature, "detail": d.detail,
+                                         "case": case, "shrunk": False})
+        if len(stats.violations) >= max_violations:
+            stats.notes.append(f"{name}: enumeration stopped after {max_violations} distinct violations")
+            break
+    return stats
